@@ -71,24 +71,22 @@ Proof.
   { pose proof (run_comments c _ _ _ _ _ Er) as Hc. simpl in Hc. rewrite Hc, item_comments_restyle.
     apply Forall_forall. intros x Hx. apply in_map_iff in Hx as [y [<- _]]. apply styled_restyle. }
   apply Forall_app in Hst as [Hst1 Hst2].
-  assert (Hst3 : Forall (styled c) tr).
-  { assert (H : Forall (styled c) (tr ++ rest)).
-    { rewrite Hsp. apply Forall_app. split; auto.
-      apply Forall_forall. intros x Hx. apply in_map_iff in Hx as [y [<- _]]. apply styled_restyle. }
-    now apply Forall_app in H as [H _]. }
+  assert (Hst3 : Forall (styled c) (tr ++ rest)).
+  { rewrite Hsp. apply Forall_app. split; auto.
+    apply Forall_forall. intros x Hx. apply in_map_iff in Hx as [y [<- _]]. apply styled_restyle. }
   assert (Hres : (let (gs0, rest0) := chunks 0 [] out in
                   match rest0 with
-                  | _ :: _ => (out, tr)
+                  | _ :: _ => (out, tr ++ rest)
                   | [] => if sort_declaration c
-                          then join_groups [] true (sort_groups (detach gs0 tr))
-                          else (out, tr)
-                  end) = (out, tr)).
+                          then let (o, t) := join_groups [] true (sort_groups (detach gs0 tr)) in (o, t ++ rest)
+                          else (out, tr ++ rest)
+                  end) = (out, tr ++ rest)).
   { destruct (chunks 0 [] out) as [gs0 rest0]. destruct rest0; auto. now rewrite Hsd. }
   rewrite Hres in Hn. subst n.
-  (* second application *)
+  (* second application: the tail is read again as it was split *)
   unfold norm. rewrite to_items_of_items. unfold norm_items.
   rewrite (restyle_items_styled c out Hst1).
   rewrite (run_replay c _ st0 st0 [] out tl1 inv_st0 rel_st0 ltac:(intros F; destruct F) ltac:(intros F; destruct F) Er).
-  simpl app. rewrite (map_restyle_styled c tr Hst3). rewrite (keep_tail_idem _ _ _ _ Ek).
-  now rewrite Hres.
+  simpl app. rewrite (map_restyle_styled c (tr ++ rest) Hst3). rewrite Hsp, Ek.
+  rewrite Hres, Hsp. reflexivity.
 Qed.
